@@ -263,3 +263,14 @@ class Result:
             self.pid, self.tier, self.cov["obligations"], self.cov["discharged"], self.cov["evaluations"],
             time.time() - self.t0))
         return 0
+
+
+def load_case_corpus(pid, ext):
+    """minimised past failures kept under corpus/<pid>/*.<ext> (one case per file): they run first in every check"""
+    import glob
+    out = []
+    for f in sorted(glob.glob(os.path.join(ROOT, "corpus", pid, "*." + ext))):
+        lines = [l.rstrip("\n") for l in open(f) if l.strip() and not l.startswith("#")]
+        if lines:
+            out.append(lines)
+    return out
